@@ -3,6 +3,7 @@
 // Single-loop mode (virtual time for leaf delays and action time-outs).
 #include <sim.h>
 #include "loopdrv.h"
+#include "c17_ref.h"
 
 #include <tbox/event/loop.h>
 #include <tbox/event/timer_event.h>
@@ -94,7 +95,7 @@ void generate(sim::Rng &r, uint64_t seed, const std::string &tier, sim::Plan &p)
 // ---------------------------------------------------------------------- tree spec
 struct Spec { int parent = -1, kind = N_LEAF; long mode = 0, a = 0, b = 0, tmo = 0; std::vector<int> ch; };
 
-struct Ev { int what; int node; long v; };   // what: 0 leaf start, 1 root finish (v = result), 2 root block, 3 final hook, 4 leaf finished
+struct Ev { int what; int node; long v; long t; };   // what: 0 leaf start, 1 root finish (v = result), 2 root block, 3 final hook, 4 leaf finished
 struct Run {
   std::vector<Ev> ev;
 };
@@ -124,6 +125,7 @@ class ProbeLeaf : public Action {
 
 struct Tree {
   Loop *loop = nullptr;
+  int64_t t0_ms = 0;
   std::vector<Spec> spec;
   std::vector<Action *> nodes;      // nodes[i] built from spec[i]
   Run *rec = nullptr;
@@ -145,7 +147,7 @@ void ProbeLeaf::onStart() {
     Tree *tt = t_;
     loop_.runNext([tt] { if (tt->nodes[0] && tt->nodes[0]->isUnderway()) { tt->nodes[0]->stop(); if (tt->on_forced_stop) tt->on_forced_stop(); } }, "c17.overrun-stop");
   }
-  if (idx_ >= 0) t_->rec->ev.push_back(Ev{0, idx_, starts_});
+  if (idx_ >= 0) t_->rec->ev.push_back(Ev{0, idx_, starts_, (long)(sim::now_ms() - t_->t0_ms)});
   sim::trace("leaf n%d start #%ld", idx_, starts_);
   sim::relevant();
   switch (s_.mode) {
@@ -167,7 +169,7 @@ void ProbeLeaf::arm() {
 }
 void ProbeLeaf::complete() {
   pending_ = false;
-  if (idx_ >= 0) t_->rec->ev.push_back(Ev{4, idx_, result_now_ ? 1 : 0});
+  if (idx_ >= 0) t_->rec->ev.push_back(Ev{4, idx_, result_now_ ? 1 : 0, (long)(sim::now_ms() - t_->t0_ms)});
   // a switch's selector reports its choice through the reason message
   finish(result_now_, Reason(0, std::string("case:c") + std::to_string(starts_ % 2)));   // the selector names the case by the full role string
 }
@@ -263,8 +265,8 @@ void check_nothing_underway(Tree &T, const char *when);
 
 void hook_root(Tree &T, Run &run, int my_run) {
   Action *root = T.nodes[0];
-  root->setFinishCallback([&run, my_run](bool ok, const Action::Reason &, const Action::Trace &) {
-    run.ev.push_back(Ev{1, 0, ok ? 1 : 0});
+  root->setFinishCallback([&run, &T, my_run](bool ok, const Action::Reason &, const Action::Trace &) {
+    run.ev.push_back(Ev{1, 0, ok ? 1 : 0, (long)(sim::now_ms() - T.t0_ms)});
     sim::trace("root finished %d", (int)ok);
     if (my_run && my_run != W.run_no) sim::violation("C17/stale-notification-after-reset", sim::fmt("the finish notification of run %d was delivered after the tree had been reset and started again", my_run));
     if (&run == W.cur) {
@@ -277,12 +279,12 @@ void hook_root(Tree &T, Run &run, int my_run) {
       lp->runNext([lp, run_no] { lp->runNext([run_no] { if (W.run_no == run_no && W.finished) check_nothing_underway(W.tree, "one loop pass after the root finished"); }, "c17.settle2"); }, "c17.settle1");
     }
   });
-  root->setBlockCallback([&run, my_run](const Action::Reason &, const Action::Trace &) {
-    run.ev.push_back(Ev{2, 0, 0});
+  root->setBlockCallback([&run, &T, my_run](const Action::Reason &, const Action::Trace &) {
+    run.ev.push_back(Ev{2, 0, 0, (long)(sim::now_ms() - T.t0_ms)});
     if (my_run && my_run != W.run_no) sim::violation("C17/stale-notification-after-reset", sim::fmt("the block notification of run %d was delivered after the tree had been reset and started again", my_run));
     if (&run == W.cur) { ++W.root_blocks; if (W.stopped) sim::violation("C17/block-after-stop", "a block notification was delivered after stop() had returned"); }
   });
-  if (auto *as = dynamic_cast<AssembleAction *>(root)) as->setFinalCallback([&run] { run.ev.push_back(Ev{3, 0, 0}); if (&run == W.cur) ++W.finals; });
+  if (auto *as = dynamic_cast<AssembleAction *>(root)) as->setFinalCallback([&run] { run.ev.push_back(Ev{3, 0, 0, 0}); if (&run == W.cur) ++W.finals; });
 }
 
 void check_nothing_underway(Tree &T, const char *when) {
@@ -329,7 +331,7 @@ void execute(const sim::Plan &plan) {
   static drv::Timeline tl;
   tl = drv::Timeline();
   int64_t t = sim::now_ns();
-  tl.at(t, [root, loop] { loop->runInLoop([root] { W.started = true; root->start(); }, "c17.start"); });
+  tl.at(t, [root, loop] { loop->runInLoop([root] { W.started = true; W.tree.t0_ms = sim::now_ms(); root->start(); }, "c17.start"); });
   for (const sim::Op &op : plan.ops) {
     if (op.kind != "ctl") continue;
     const sim::Op *o = &op;
@@ -403,6 +405,39 @@ void execute(const sim::Plan &plan) {
       }
     }
   }
+  // timed reference model: every tree (parallel, time-outs, never/blocking leaves, control calls), whenever the model can predict
+  if (sim::violation_count() == 0 && W.started && !W.tree.overrun) {
+    std::vector<c17ref::InSpec> in;
+    for (const Spec &s : spec) in.push_back(c17ref::InSpec{s.kind, s.mode, s.a, s.b, s.tmo, s.ch});
+    c17ref::Model M(in);
+    std::vector<c17ref::Ctl> ctls; long at = 0;
+    for (const sim::Op &op : plan.ops) if (op.kind == "ctl") { at += std::max(0L, std::min(500L, op.arg(0))); ctls.push_back(c17ref::Ctl{at, (int)(((op.arg(1) % 4) + 4) % 4)}); }
+    if (M.simulate(ctls, at + 20000)) {
+      sim::probe("timed_reference_checks");
+      const Run *real[2] = {&W.run1, &W.run2};
+      for (int k = 0; k < (M.second ? 2 : 1) && sim::violation_count() == 0; ++k) {
+        std::vector<c17ref::LeafStart> got; int fins = 0, blocks = 0; long res = -1, fin_t = -1;
+        for (const Ev &e : real[k]->ev) { if (e.what == 0) got.push_back(c17ref::LeafStart{e.node, e.v, e.t}); else if (e.what == 1) { ++fins; res = e.v; fin_t = e.t; } else if (e.what == 2) ++blocks; }
+        const c17ref::RunRec &want = M.run[k];
+        if (!(got == want.starts)) {
+          size_t i = 0; while (i < got.size() && i < want.starts.size() && got[i] == want.starts[i]) ++i;
+          std::string g = i < got.size() ? sim::fmt("leaf n%d start #%ld at +%ld ms", got[i].leaf, got[i].n, got[i].t) : std::string("nothing");
+          std::string w = i < want.starts.size() ? sim::fmt("leaf n%d start #%ld at +%ld ms", want.starts[i].leaf, want.starts[i].n, want.starts[i].t) : std::string("nothing");
+          sim::violation("C17/child-start-order", sim::fmt("run %d: leaf start #%zu is %s, the timed reference model of the composites gives %s (%zu starts vs %zu)", k + 1, i, g.c_str(), w.c_str(), got.size(), want.starts.size()));
+        } else if (fins != want.finishes) sim::violation(fins > want.finishes ? "C17/root-finished-unexpectedly" : "C17/root-never-finished", sim::fmt("run %d: the root's finish callback ran %d times, the timed reference model gives %d", k + 1, fins, want.finishes));
+        else if (fins && (res != (want.result ? 1 : 0))) sim::violation("C17/root-result", sim::fmt("run %d: the root finished with %s, the timed reference model gives %s", k + 1, res ? "success" : "failure", want.result ? "success" : "failure"));
+        else if (fins && fin_t != want.finish_t) sim::violation("C17/root-finish-time", sim::fmt("run %d: the root finished at +%ld ms, the timed reference model gives +%ld ms", k + 1, fin_t, want.finish_t));
+        else if (blocks != want.blocks) sim::violation("C17/root-block-count", sim::fmt("run %d: the root's block callback ran %d times, the timed reference model gives %d", k + 1, blocks, want.blocks));
+      }
+      if (sim::violation_count() == 0) {
+        static const Action::State map[] = {Action::State::kIdle, Action::State::kRunning, Action::State::kPause, Action::State::kFinished, Action::State::kStoped};
+        for (size_t i = 0; i < M.nd.size(); ++i) {
+          int sp = M.nd[i].spec; if (sp < 0 || !W.tree.nodes[(size_t)sp]) continue;
+          if (W.tree.nodes[(size_t)sp]->state() != map[M.nd[i].st]) { sim::violation("C17/final-state-differs", sim::fmt("at the end node n%d (%s) is %s, the timed reference model leaves it %s", sp, W.tree.nodes[(size_t)sp]->type().c_str(), ToString(W.tree.nodes[(size_t)sp]->state()).c_str(), ToString(map[M.nd[i].st]).c_str())); break; }
+        }
+      }
+    } else sim::probe(M.overrun ? "timed_reference_overrun" : "timed_reference_ambiguous");
+  }
   // a reset tree behaves like a freshly built one (compare with a fresh identical tree run without control calls)
   if (sim::violation_count() == 0 && W.second_run && !W.disturbed2 && !W.stopped && !blocked_forever && !has_never && !has_block) {
     // only meaningful if the second run was not disturbed: no control op after the reset => approximate by requiring it finished
@@ -414,7 +449,7 @@ void execute(const sim::Plan &plan) {
       hook_root(W.fresh, W.runf, 0);
       static drv::Timeline tl2; tl2 = drv::Timeline();
       int64_t t2 = sim::now_ns();
-      tl2.at(t2, [froot, loop2] { loop2->runInLoop([froot] { froot->start(); }, "c17.fresh"); });
+      tl2.at(t2, [froot, loop2] { loop2->runInLoop([froot] { W.fresh.t0_ms = sim::now_ms(); froot->start(); }, "c17.fresh"); });
       tl2.at(t2 + 20000 * 1000000LL, [loop2] { loop2->runInLoop([loop2] { loop2->exitLoop(); }, "c17.exit2"); });
       tl2.install();
       loop2->runLoop(Loop::Mode::kForever);
